@@ -14,6 +14,32 @@ CHECKS = {
                 assumptions=['interrupt = QvmCpu.signal_handler called by the scheduler (or signal.raise_signal); OS signal latency is not simulated',
                              'budget overruns are counted as inconclusive, not as violations, except after an unarmed interrupt',
                              'expected trap categories are taken from the property text and qvm/trap.py']),
+    'C02': dict(mod='c02', level='exploration',
+                rule=('scenario = program (constant-heavy profile: constant expressions over every operator / operand '
+                      'type pair with boundary values in CONST, static bounds, PRINT items, conditions, FOR, SELECT; '
+                      'generated any/ref programs; repository programs) x device script; replicas -O0..-O3 at each debug '
+                      'setting run the identical script and the identical fault (k-th device call fails / is '
+                      'interrupted) and are compared event by event (device history, typed PRINT operands, outcome, '
+                      'trapped line with -g) and on acceptance. evaluations = compilations + simulated runs; '
+                      'distinct_nontrivial = distinct (text, replica group, plan) digests in which a fault fired, '
+                      'plus one per distinct fault-free group'),
+                assumptions=['-O0 is the reference replica', 'interrupts at tick boundaries cannot be aligned across levels and are not used here',
+                             'the enumerations named in the quantifier (all peephole windows, all boundary pairs) are sampled, not exhausted']),
+    'C08': dict(mod='c08', level='exploration',
+                rule=('as C02 with the replica axis {-g, no -g} at each of -O0..-O2; programs in which RESUME / RESUME NEXT / '
+                      'ON ERROR RESUME NEXT actually executes are exempt for the no-g replica, which must then stop with '
+                      'CANNOT_RESUME after a prefix of the -g history; sections 1-3 compared byte-wise as a static sanity check'),
+                assumptions=['whether a RESUME executed is observed by the tick wrapper (errres/errresn at pc, or a trap taken in RESUME NEXT mode)']),
+    'C03': dict(mod='c03', level='exploration',
+                rule=('scenario = program x config x device script with rejected INPUT lines; fault-free run, one run per '
+                      '(sampled) device call with a device failure, and 2-3-fault runs; monitors between all ticks: no '
+                      'machine-level fault code, pc on an instruction start, declared cell types after every store and in '
+                      'periodic sweeps of all live frames and the global area, operand-stack depth at every statement '
+                      'start = frame base + pending GOSUBs. evaluations = simulated runs (+1 compilation per scenario); '
+                      'distinct_nontrivial = distinct (text, config, plan) digests of runs that executed (fault fired where planned)'),
+                assumptions=['declared cell types are derived by simqb from the routine symbol tables of the debug section',
+                             'statement boundaries come from the debug map (CASE clause element records and the synthesised END SELECT of an empty CASE body are not boundaries)',
+                             'the abstract interpretation named in the quantifier is not performed (different technique); the claim is the concrete-run monitor']),
 }
 
 
